@@ -119,3 +119,14 @@ Example C04_example_noforgery : NoForgery symg ex_c1 (b_enc_cek ex_b0) (b_enc_co
 Proof. exact ex_noforgery. Qed.
 Example C04_example_instance : forall p', fst (unprotect_offline symg ex_c1 ex_B_version) = Ok p' -> p' = ex_data.
 Proof. exact ex_no_other_plaintext. Qed.
+
+(* ---- compute_kek (the DH / ECDH exchange of public-key mode, where the repair of D16 validates the peer's key against the GROUP'S
+   parameters and range) is tied to the model function the theorems above use through Model/Kek.v: the same tie as C03_flow_compute_kek,
+   listed here because a change of those checks is a C04 matter (seeded change C04-dh-exchange-in-group-field-claimed-modulus-r8). ---- *)
+Require V.gen.F_gkdi V.Flow.World_gkdi_keys V.Proofs.Flow_gkdi_keys_kek.
+Theorem C04_flow_compute_kek : forall c u fuel h alg sp priv pub,
+  run (V.Flow.World_gkdi_keys.W c u) fuel V.gen.F_gkdi.k_flow_compute_kek
+      [VO (V.Flow.World_gkdi_keys.OHash h); VS alg; VB sp; VB priv; VB pub]
+  = (let* b := V.Model.Kek.compute_kek c h alg sp priv pub in Ok (VB b)).
+Proof. exact V.Proofs.Flow_gkdi_keys_kek.flow_compute_kek. Qed.
+Print Assumptions C04_flow_compute_kek.
